@@ -120,8 +120,14 @@ def violation(res, cls, msg, **detail):
 _WORKER = {}
 
 
-def _worker_init(modname, tier, root):
+def _worker_init(modname, tier, root, cur_dir=None):
     os.environ['OMBOTT_VERIF_WORKER'] = '1'
+    _WORKER['cur_fd'] = None
+    if cur_dir:
+        try:
+            _WORKER['cur_fd'] = os.open(os.path.join(cur_dir, f'{os.getpid()}.cur'), os.O_RDWR | os.O_CREAT, 0o600)
+        except OSError:
+            pass
     faulthandler.enable()
     ensure_repo()
     mod = load_prop(modname)
@@ -202,6 +208,10 @@ class Agg:
         self.errors.extend(other.errors)
 
 
+class _Stuck(Exception):
+    pass
+
+
 class RunTimeout(BaseException):
     """Raised in the main thread by the wall-clock watchdog of a run (BaseException, so that
     the framework's own `except Exception` clauses cannot swallow it)."""
@@ -263,6 +273,17 @@ def run_one(mod, case):
     return res
 
 
+def _mark_current(*key):
+    """Tell the parent which run this worker is executing (a few bytes at offset 0 of its marker file), so that
+    a run that can be ended only by killing the process can still be named."""
+    fd = _WORKER.get('cur_fd')
+    if fd is not None:
+        try:
+            os.pwrite(fd, (json.dumps(key) + ' ' * 48)[:64].encode(), 0)
+        except OSError:
+            pass
+
+
 def _task_seeds(i0, i1, digest_every):
     mod, tier, root = _WORKER['mod'], _WORKER['tier'], _WORKER['root']
     agg = Agg()
@@ -271,6 +292,7 @@ def _task_seeds(i0, i1, digest_every):
         try:
             case = mod.gen_case(random.Random(seed), tier)
             case['_seed'] = seed
+            _mark_current('s', i)
             res = run_one(mod, case)
         except HarnessError as e:
             agg.errors.append(f'run {i} seed {seed}: {e}')
@@ -278,6 +300,7 @@ def _task_seeds(i0, i1, digest_every):
                 break
             continue
         agg.add(('s', i), case, res, mod, keep_digest=(i % digest_every == 0))
+    _mark_current('idle')
     return agg
 
 
@@ -286,10 +309,12 @@ def _task_unit(uidx, unit):
     agg = Agg()
     try:
         for j, case in enumerate(mod.expand_unit(unit)):
+            _mark_current('u', uidx, j)
             res = run_one(mod, case)
             agg.add(('u', uidx, j), case, res, mod, keep_digest=(j == 0))
     except HarnessError as e:
         agg.errors.append(f'unit {uidx}: {e}')
+    _mark_current('idle')
     return agg
 
 
@@ -307,8 +332,12 @@ def run_batch(modname, tier, root, *, n_runs, budget_s, workers=None, batch=None
     units = list(units or [])
     hard_timeout = max(120.0, budget_s * 4 + 120)
     submitted_runs = 0
+    import tempfile
+    import shutil
+    cur_dir = tempfile.mkdtemp(prefix=f'simcheck-{os.getpid()}-')
+    agg.stuck = []
     with ProcessPoolExecutor(max_workers=workers, mp_context=ctx,
-                             initializer=_worker_init, initargs=(modname, tier, root)) as ex:
+                             initializer=_worker_init, initargs=(modname, tier, root, cur_dir)) as ex:
         pending = set()
         unit_iter = iter(enumerate(units))
         units_done = False
@@ -343,7 +372,18 @@ def run_batch(modname, tier, root, *, n_runs, budget_s, workers=None, batch=None
                     break
                 done, pending = wait(pending, timeout=hard_timeout, return_when=FIRST_COMPLETED)
                 if not done:
-                    raise HarnessError(f'no worker finished within {hard_timeout:.0f}s (hang?)')
+                    # which runs are the workers sitting in?  (they are killed below; the caller confirms each
+                    # suspect in a process of its own and reports the ones that never answer as violations)
+                    for fn in sorted(os.listdir(cur_dir)):
+                        try:
+                            key = json.loads(open(os.path.join(cur_dir, fn)).read().strip() or 'null')
+                        except (OSError, ValueError):
+                            key = None
+                        if key and key[0] in ('s', 'u'):
+                            agg.stuck.append(tuple(key))
+                    if not agg.stuck:
+                        raise HarnessError(f'no worker finished within {hard_timeout:.0f}s (hang?)')
+                    raise _Stuck()
                 for f in done:
                     agg.merge(f.result())
                 if agg.errors:
@@ -351,14 +391,21 @@ def run_batch(modname, tier, root, *, n_runs, budget_s, workers=None, batch=None
                 # stop early once a violation is known: the rest of the budget goes to minimisation
                 if agg.viol and time.time() - t0 > min(budget_s, 20):
                     stop_new = True
-        except BaseException:
+        except BaseException as exc:
             time.sleep(0.3)      # let a dying worker flush its traceback
             for p in list(getattr(ex, '_processes', {}).values()):
                 try:
                     p.kill()
                 except Exception:
                     pass
-            raise
+            shutil.rmtree(cur_dir, ignore_errors=True)
+            try:
+                ex.shutdown(wait=False, cancel_futures=True)
+            except Exception:   # noqa
+                pass
+            if not isinstance(exc, _Stuck):
+                raise
+    shutil.rmtree(cur_dir, ignore_errors=True)
     agg.wall = time.time() - t0
     agg.submitted_runs = submitted_runs
     agg.units = units_submitted
@@ -420,3 +467,39 @@ def write_evidence(prop, doc):
         json.dump(doc, f, indent=1, default=_json_default)
     os.replace(tmp, path)
     return path
+
+
+def run_isolated(mod, case, timeout_s=60.0):
+    """Run one case in a forked child of its own.  Returns ('done', [violation classes], digest) or
+    ('no-answer', None, None) when the child had to be killed after timeout_s seconds of wall-clock time
+    (used only for runs that already kept a worker busy beyond the batch's hard timeout)."""
+    ctx = multiprocessing.get_context('fork')
+    r, w = ctx.Pipe(duplex=False)
+
+    def child():
+        try:
+            setup = getattr(mod, 'setup_worker', None)
+            if setup:
+                setup()
+            res = run_one(mod, case)
+            w.send(('done', [v['cls'] for v in res['viol']], res['digest']))
+        except BaseException as e:   # noqa
+            try:
+                w.send(('error', f'{type(e).__name__}: {e}', None))
+            except Exception:   # noqa
+                pass
+        finally:
+            os._exit(0)
+    p = ctx.Process(target=child)
+    p.start()
+    w.close()
+    out = ('no-answer', None, None)
+    if r.poll(timeout_s):
+        try:
+            out = r.recv()
+        except EOFError:
+            out = ('error', 'child died', None)
+    if p.is_alive():
+        p.kill()
+    p.join(5)
+    return out
